@@ -126,7 +126,7 @@ func ruleEF1() Rule {
 					}
 				}
 				if len(extra) == 0 {
-					rr.OK(reader, key, as.Pos(), "always", "the reader's error is stored whenever it is not io.EOF and the slot is empty")
+					rr.OK(reader, key, as.Pos(), "always", "the reader's error is stored whenever it is not io.EOF and the slot holds no other reader error")
 				} else {
 					rr.Bad(reader, key, as.Pos(), fmt.Sprintf("the reader's error is recorded only under additional conditions %v: some read failures are silently treated as end of input", extra))
 				}
@@ -139,6 +139,12 @@ func ruleEF1() Rule {
 }
 
 func allowedRecordGuard(info *types.Info, gd guard, errVar types.Object, slot *types.Var) bool {
+	// "the slot is empty or holds a syntax error": `ok || slot == nil` with
+	// `_, ok := slot.(Error)` - the reader's error replaces a syntax error
+	// but never another reader error
+	if gd.pos && slotEmptyOrSyntax(info, gd.cond, slot) {
+		return true
+	}
 	be, ok := ast.Unparen(gd.cond).(*ast.BinaryExpr)
 	if !ok {
 		return false
@@ -160,8 +166,8 @@ func allowedRecordGuard(info *types.Info, gd guard, errVar types.Object, slot *t
 
 // ruleEF2: a recorded reader error is never replaced by a syntax error.
 func ruleEF2() Rule {
-	return Rule{ID: "EF2", Kind: "must", Floor: 2,
-		Doc: "every store of a parser.Error into the lexer's error slot is reached only on paths where the slot was tested to be nil or to already hold a parser.Error, so a recorded reader error is sticky; ParseCommands returns that slot (EF3)",
+	return Rule{ID: "EF2", Kind: "must", Floor: 4,
+		Doc: "every store into the lexer's error slot is reached only on paths where the slot was tested to be nil or to already hold a parser.Error, so a recorded reader error is sticky; ParseCommands returns that slot (EF3)",
 		Run: func(c *Ctx, rr *core.RuleResult) {
 			slot := c.fieldVar("parser", "lexer", "err")
 			if slot == nil {
@@ -169,6 +175,7 @@ func ruleEF2() Rule {
 				return
 			}
 			const good core.Bits = 1
+			storeSeq := map[string]int{}
 			for _, f := range c.funcsOfPkg("parser", false) {
 				info := f.Info()
 				var stores []*ast.AssignStmt
@@ -178,7 +185,9 @@ func ruleEF2() Rule {
 						return true
 					}
 					for i, l := range as.Lhs {
-						if core.FieldOf(info, l) == slot && i < len(as.Rhs) && namedTypeName(info.Types[as.Rhs[i]].Type) == "parser.Error" {
+						// every store counts, whatever the static type of the value:
+						// the slot may be written through a helper taking an `error`
+						if core.FieldOf(info, l) == slot && i < len(as.Rhs) {
 							stores = append(stores, as)
 						}
 					}
@@ -240,6 +249,10 @@ func ruleEF2() Rule {
 				})
 				for _, as := range stores {
 					key := f.Name + "|" + exprStr(as.Lhs[0]) + " = Error{…}"
+					if n := storeSeq[f.Name]; n > 0 {
+						key = fmt.Sprintf("%s #%d", key, n+1)
+					}
+					storeSeq[f.Name]++
 					if facts[as]&good != 0 {
 						rr.OK(f, key, as.Pos(), "sticky", "on every path the slot was tested to be nil or a parser.Error first")
 					} else {
@@ -725,4 +738,58 @@ func isTokenSource(c *Ctx, info *types.Info, e ast.Expr, readFn *core.Func) bool
 		return false
 	}
 	return c.P.CG().Reachable(g)[readFn]
+}
+
+// slotEmptyOrSyntax reports whether cond is a disjunction each of whose
+// operands says that the error slot is nil or holds a parser.Error (the
+// comma-ok variable of an assertion `slot.(Error)` made in an enclosing
+// if/else-if header).
+func slotEmptyOrSyntax(info *types.Info, cond ast.Expr, slot *types.Var) bool {
+	cond = ast.Unparen(cond)
+	if be, ok := cond.(*ast.BinaryExpr); ok && be.Op == token.LOR {
+		return slotEmptyOrSyntax(info, be.X, slot) && slotEmptyOrSyntax(info, be.Y, slot)
+	}
+	if be, ok := cond.(*ast.BinaryExpr); ok && be.Op == token.EQL && core.FieldOf(info, be.X) == slot && isNilIdent(info, be.Y) {
+		return true
+	}
+	if id, ok := cond.(*ast.Ident); ok {
+		if v, ok := info.Uses[id].(*types.Var); ok && isOkOfSlotAssert(info, v, slot) {
+			return true
+		}
+	}
+	return false
+}
+
+// isOkOfSlotAssert reports whether v is defined as the second result of
+// `slot.(parser.Error)`.
+func isOkOfSlotAssert(info *types.Info, v *types.Var, slot *types.Var) bool {
+	found := false
+	if p := core.CurrentProgram; p != nil {
+		for _, pk := range p.Pkgs {
+			if pk.TypesInfo != info {
+				continue
+			}
+			for _, file := range pk.Syntax {
+				if file.Pos() > v.Pos() || v.Pos() > file.End() {
+					continue
+				}
+				ast.Inspect(file, func(n ast.Node) bool {
+					as, ok := n.(*ast.AssignStmt)
+					if !ok || len(as.Lhs) != 2 || len(as.Rhs) != 1 {
+						return true
+					}
+					id, ok := as.Lhs[1].(*ast.Ident)
+					if !ok || info.Defs[id] != types.Object(v) {
+						return true
+					}
+					ta, ok := ast.Unparen(as.Rhs[0]).(*ast.TypeAssertExpr)
+					if ok && ta.Type != nil && core.FieldOf(info, ta.X) == slot && namedTypeName(info.Types[ta.Type].Type) == "parser.Error" {
+						found = true
+					}
+					return true
+				})
+			}
+		}
+	}
+	return found
 }
